@@ -63,7 +63,7 @@ impl Prop for Repair {
         "fault_enumeration"
     }
     fn rule(&self) -> String {
-        let common = "run = one seeded valid writer history (as C01, with flushes, block-lookalike content on some runs, 65..200 files with long-lived open ones on one run in 20, 17..1000 recipients on one encrypted run in 20) written to the simulated sink; crash fault = the sink dies after n accepted bytes, i.e. the stored image is the first n bytes. On s0/s1 images up to 2600 bytes EVERY n in 0..=len is taken (exhaustive in the crash point for the workloads visited); on larger images windows of +-20 bytes around every structural anchor of the layout map (header end, every chunk payload/tag edge, every compressed-block edge, every file-layer block, end marker, index) plus a seeded sample; the first 24 (thorough: 240) runs use production constants and one content block longer than the 8 MiB repair copy buffer, and SEARCH the crash point (bisection on the recovered length) at which the bytes recovered from that block end exactly on the buffer edge, then judge the 7 cuts around it. Each cut image is repaired in authenticated and unauthenticated mode through the simulated source with a step budget, and the produced archive is read back with the normal reader. evaluations = repairs judged; distinct_nontrivial = distinct (variant, layers, mode, region class of the cut, anchor?, stop status, unfinished?) signatures.";
+        let common = "run = one seeded valid writer history (as C01, with flushes, block-lookalike content on some runs, 65..200 files with long-lived open ones on one run in 20, 17..1000 recipients on one encrypted run in 20) written to the simulated sink; crash fault = the sink dies after n accepted bytes, i.e. the stored image is the first n bytes. On s0/s1 images up to 2600 bytes EVERY n in 0..=len is taken (exhaustive in the crash point for the workloads visited); on larger images windows of +-20 bytes around every structural anchor of the layout map (header end, every chunk payload/tag edge, every compressed-block edge, every file-layer block, end marker, index) plus a seeded sample; the first 24 (thorough: 240) runs use production constants and one content block longer than the 8 MiB repair copy buffer, and SEARCH the crash point (bisection on the recovered length) at which the bytes recovered from that block end exactly on the buffer edge, then judge the 7 cuts around it. The run after those (thorough: the six after) holds 33000..70000 tiny files - ids beyond 2^15 and 2^16 - and is repaired undamaged and at three seeded cuts. Each cut image is repaired in authenticated and unauthenticated mode through the simulated source with a step budget, and the produced archive is read back with the normal reader. evaluations = repairs judged; distinct_nontrivial = distinct (variant, layers, mode, region class of the cut, anchor?, stop status, unfinished?) signatures.";
         if self.id == "C02" {
             format!("{common} Clauses: no panic/budget overrun; for n >= header length from_config and convert_to_archive return Ok; repaired archive opens and reads back with consistent size/hash; names subset of original; every recovered file is a prefix of the original; files not reported unfinished are complete; EndOfOriginalArchiveData only if everything was recovered.")
         } else {
@@ -133,6 +133,28 @@ impl Prop for Repair {
             let mut case = Case::new(self.id, cfg, ops);
             case.params.insert("cache_edge".into(), (pre + cache) as i64);
             case.params.insert("cut_seed".into(), 1);
+            return case;
+        }
+        let count_runs = match tier {
+            Tier::Quick => 1,
+            Tier::Thorough => 6,
+        };
+        if run < edge_runs + count_runs {
+            // tens of thousands of files (ids beyond 2^15, in the thorough tier beyond 2^16) with one long-lived file;
+            // repaired undamaged and at a handful of cuts
+            let k = run - edge_runs;
+            let n = [33_000usize, 66_000, 40_000, 33_000, 70_000, 33_000][k as usize % 6];
+            let variant = if k % 2 == 0 { "s0" } else { "s1" };
+            let layers = [0u8, 1, 2, 3, 0, 1][k as usize % 6];
+            let cfg = ArcCfg { variant: variant.into(), layers, level: 1, recipients: usize::from(layers & 1 != 0), reader: 0, rng_seed: run + 3, key_seed: run + 9 };
+            let ops = gen_many_files(&mut rng, n, 1, 3);
+            let mut case = Case::new(self.id, cfg, ops);
+            case.params.insert("full_sweep_limit".into(), 0);
+            case.params.insert("max_anchors".into(), 0);
+            case.params.insert("samples".into(), 2);
+            case.params.insert("window".into(), 0);
+            case.params.insert("file_count".into(), n as i64);
+            case.params.insert("cut_seed".into(), (rng.u64() >> 1) as i64);
             return case;
         }
         let vc = consts_of(variant);
